@@ -48,4 +48,37 @@ PROPS = {
         quick=dict(shards=16, checks=1200, extra=["TestQuota"], timeout=600),
         thorough=dict(shards=16, checks=25000, extra=["TestQuota"], timeout=3000),
     ),
+    "C03": dict(
+        pkg="c03",
+        technique="property-based round-trip testing (rapid) with run-mode / range-wrap oriented generators, plus exhaustive enumeration of tiny images",
+        level_text="Exploration: seeded rapid generators over geometry x precision 2..16 x components {1,3} x content classes (two-level, runs, sparse outliers, width 1, noise); quota cases for long runs (run index), context reset, every precision; exhaustive tiny images at P=2 and P=4.",
+        level_note="Round trip through the library's own encoder/decoder; labels (escape code, context reset, interruption type) are read from the stream by the independent T.87 decoder. Conformance itself is C14.",
+        rule=("rapid-generated images: geometry classes (tiny, block edges, strips), components {1,3}, P 2..16, content class; small images literal. "
+              "Non-trivial: two equal horizontal neighbours (run mode reachable) or a neighbour jump >= 2^(P-1) (modulo-RANGE wrap exercised). Distinct = hash of the case."),
+        assumptions=COMMON_ASSUME,
+        quick=dict(shards=16, checks=1200, extra=["TestQuota", dict(run="TestExhaustive", shards=4)], timeout=600),
+        thorough=dict(shards=16, checks=25000, extra=["TestQuota", dict(run="TestExhaustive", shards=16)], timeout=3000),
+    ),
+    "C07": dict(
+        pkg="c07",
+        technique="property-based testing (rapid) with a per-sample error-bound oracle, plus a sweep over every (precision, NEAR) pair",
+        level_text="Exploration: seeded rapid generators over images x NEAR (emphasis 0..3 and maximum) with NEAR-aware content (samples within NEAR of the range ends, ramps of step 2*NEAR+1 / 2*NEAR, runs disturbed by NEAR and NEAR+1), and a deterministic sweep visiting every NEAR at every precision.",
+        level_note="Oracle is the statement's own bound |dec-src| <= NEAR, dec <= MAXVAL, reported NEAR and geometry; trusts only the Go runtime.",
+        rule=("rapid-generated (image, NEAR) with P 2..16, NEAR in 0..min(255,MAXVAL/2); sweep of all 2250 (P,NEAR) pairs. Non-trivial: NEAR = 0, or NEAR >= 1 and at least one "
+              "decoded sample differs from its source (the quantiser acted). Distinct = hash of the case."),
+        assumptions=COMMON_ASSUME,
+        quick=dict(shards=16, checks=1200, extra=["TestQuota", dict(run="TestNearSweep", shards=4)], timeout=600),
+        thorough=dict(shards=16, checks=25000, extra=["TestQuota", dict(run="TestNearSweep", shards=16)], timeout=3000),
+    ),
+    "C14": dict(
+        pkg="c14",
+        technique="differential property-based testing (rapid) against an independent T.87 decoder, cross-package metamorphic relations, and the Annex H.3 vector",
+        level_text="Exploration: library streams (lossless and near-lossless, every precision, every NEAR visited) are decoded by the independent T.87 decoder and compared with the source / the library decoder; lossless vs NEAR=0 encoders compared bytewise, decoders cross-fed; finite H.3 vector checked completely.",
+        level_note="Trusts harness/ref/t87 (written from the standard, pinned by the H.3 vector; RItype=0 for sample-interleaved run interruptions as in the HP reference/CharLS).",
+        rule=("rapid-generated (image, package/NEAR) as in C03/C07; sweep over all 2250 (P,NEAR) pairs; H.3 vector. Non-trivial: image has two equal horizontal neighbours or a jump >= 2^(P-1). "
+              "Distinct = hash of the case."),
+        assumptions=COMMON_ASSUME + ["harness/ref/t87 implements the T.87 decoding procedure correctly (H.3 vector self-test on every run)"],
+        quick=dict(shards=16, checks=1000, extra=["TestQuota", "TestH3", dict(run="TestNearSweep", shards=4)], timeout=600),
+        thorough=dict(shards=16, checks=20000, extra=["TestQuota", "TestH3", dict(run="TestNearSweep", shards=16)], timeout=3000),
+    ),
 }
